@@ -187,7 +187,8 @@ static void ratom_read(struct ratom *ra, char **pat)
 			*pat += 2;
 			break;
 		}
-		(*pat)++;
+		if ((*pat)[1])		/* a trailing backslash stands for itself */
+			(*pat)++;
 	default:
 		ra->ra = RA_CHR;
 		s = *pat;
